@@ -14,6 +14,8 @@ def main(tier, seed, replay=None, pid='C05', mode='kill', powerloss=False):
     names += _tcn.random_names(_random.Random(f'{pid}:{seed}'), 1 if tier == 'quick' else 6)
     if pid == 'C06':
         names = [n for n in names if n not in scen.DAMAGED_PRE and n not in scen.NON_DEFAULT_FSYNC]
+    if pid == 'C17' and tier == 'quick':
+        names = [n for n in names if n not in scen.HEAVY]   # fault + rerun on the 12000-object call: thorough tier only
     what = {'C05': 'the process is killed (os._exit: user-space buffers and open SQL transactions are lost) before its n-th gated call',
             'C06': 'the process is killed before its n-th gated call and every regular file under loose/ packs/ sandbox/ duplicates/ is replaced by '
                    'its content at its last fsync (snapshot taken by the fsync hook; empty if never synced; directory entries and SQLite files kept)',
